@@ -149,10 +149,11 @@ def work(task):
             if sig(G) != sig(G2) or str(mol) != before:
                 viol.append({"key": "C16/Molecule.gen_reaction_graph/frame[repeatable]", "clause": "building the graph does not change the molecule; a second graph is the same graph",
                              "detail": {"before": before[:160], "after": str(mol)[:160]}, "input": {"text": text}})
-        except RuntimeError as e:
+        except Exception as e:
             if harness.raised_in_checker(e):
                 raise
-            viol.append({"key": "C16/Molecule.gen_reaction_graph/safe[RuntimeError]", "clause": "the reaction graph can be built", "detail": {"error": str(e)[:100]}, "input": {"text": text}})
+            viol.append({"key": f"C16/Molecule.gen_reaction_graph/safe[{type(e).__name__}]", "clause": "the reaction graph of an accepted molecule can be built and passes its own validation",
+                         "detail": {"error": str(e)[:100]}, "input": {"text": text}})
             n = 1
         evals += n
         distinct.add(text)
